@@ -16,6 +16,10 @@ class Fail(Exception):
         self.value = value
 
 
+class UnspecifiedResult(Exception):
+    """Raised from inside a model when the documentation does not determine the outcome."""
+
+
 class _Unspec:
     def __repr__(self):
         return 'UNSPEC'
@@ -161,7 +165,9 @@ def m_arraySort(a, call=None):
 
         def cmp(x, y):
             r = call(fn, [x, y])
-            return r if is_number(r) else 0
+            if not is_number(r) or r != r:
+                raise UnspecifiedResult('comparison function returned a non-number')
+            return r
         a[0].sort(key=functools.cmp_to_key(cmp))
         return a[0]
     a[0].sort(key=functools.cmp_to_key(ref_compare))
